@@ -516,7 +516,8 @@ func (s *segment) Truncated() (*segment, error) {
 // rewritten segment.
 func (s *segment) rewriteTarget(suffix string) (*segment, error) {
 	target := &segment{path: s.path, BaseOffset: s.BaseOffset, suffix: suffix}
-	for _, file := range []string{target.logPath(), target.indexPath()} {
+	// The index goes first, see recoverInterruptedRewrites.
+	for _, file := range []string{target.indexPath(), target.logPath()} {
 		if err := os.Remove(file); err != nil && !os.IsNotExist(err) {
 			return nil, errors.Wrap(err, "failed to remove leftover segment file")
 		}
